@@ -140,7 +140,7 @@ pub uninterp spec fn dec_fresh() -> DecState;
 impl encoding_rs::Encoding {
     #[verifier::external_body]
     pub fn new_decoder_without_bom_handling(&self) -> (r: encoding_rs::Decoder)
-        ensures dec_of(r) == dec_fresh(),
+        ensures dec_of(r) == dec_fresh(), !dec_finished(r),
     { unimplemented!() }
 }
 /// worst-case number of UTF-8 bytes produced for n input bytes (every ill-formed byte becomes a 3-byte U+FFFD)
@@ -168,7 +168,10 @@ impl encoding_rs::Decoder {
     /// new decoder state are functions of (decoder state, input).  With too little capacity nothing is promised.
     #[verifier::external_body]
     pub fn decode_to_string(&mut self, src: &[u8], dst: &mut String, last: bool) -> (r: (encoding_rs::CoderResult, usize, bool))
+        requires
+            !dec_finished(*old(self)),   // encoding_rs panics: "Must not use a decoder that has finished."
         ensures
+            !last ==> !dec_finished(*final(self)),   // a call with last == true may finish the decoder
             !last && str_cap(*old(dst)) - old(dst)@.len() >= dec_need(src@.len() as int) ==>
                 final(dst)@ == old(dst)@ + dec_out(dec_of(*old(self)), src@) && dec_of(*final(self)) == dec_next(dec_of(*old(self)), src@),
     { unimplemented!() }
@@ -178,6 +181,8 @@ impl encoding_rs::Decoder {
 /// abstract state of the streaming decoder (pending incomplete sequence, BOM state)
 pub struct DecState { pub id: int }
 pub uninterp spec fn dec_of(d: encoding_rs::Decoder) -> DecState;
+/// the decoder has been told that its input ended (`last == true`): any further use panics
+pub uninterp spec fn dec_finished(d: encoding_rs::Decoder) -> bool;
 /// ASSUMED: 3 bytes per input byte plus slack always suffice (U+FFFD is 3 bytes)
 #[verifier::external_body]
 pub proof fn axiom_dec_need(n: int)
